@@ -491,6 +491,12 @@ def fallAnd (d : Nat) (i : Sym) (f : Nat → Option (List (Nat × DState))) : Op
 
 /-- Successors of `(pc, (d, hs))`.  A raise resets the depth to what the handler RECORDED (as
 `Fiber::stack_unwind` does).  Clause at `PushHandler rec _`: `rec = d`, the depth live at the `try`.
+Clause at `CheckHandler _` under the handler `(_, rec)`: once the filter operand is popped the depth is
+`rec` again — between the catch label (entered at `rec` by the unwind) and ANY clause's class test
+nothing but the filter is on the operand stack, so a clause that DECLINES the error hands the next
+clause (the jump target) exactly the layout the unwind produced, and the clause that accepts it binds
+the error in the first slot above everything that was live at the `try` (the slot `Compiler::catch`
+gives the variable).
 The taken branch of `And`/`Or` keeps the operand; `JumpIfFalse` and `CheckHandler` pop on both. -/
 def depthSucc (code : List Sym) (pc : Nat) (s : DState) : Option (List (Nat × DState)) :=
   let d := s.1
@@ -512,9 +518,11 @@ def depthSucc (code : List Sym) (pc : Nat) (s : DState) : Option (List (Nat × D
     | .CheckHandler l =>
       match hs with
       | [] => none
-      | _ :: r =>
+      | (_, rd) :: r =>
         fallAnd d i fun d' =>
-          optAppend ((labelPos code l).map fun p => [(pc + 1, (d', hs)), (p, (d', hs))]) (dExc code r)
+          if d' = rd then
+            optAppend ((labelPos code l).map fun p => [(pc + 1, (d', hs)), (p, (d', hs))]) (dExc code r)
+          else none
     | .FinishUnwind =>
       match hs with
       | [] => none
@@ -539,7 +547,9 @@ def depthFlow (arity : Nat) (code : List Sym) : Flow DState :=
   { size := code.length, entry := (arity + 1, []), succ := depthSucc code }
 
 /-- **Verified checker of the handler clause** ("every handler records the depth live at its try"):
-`true` ⇒ on every path every `PushHandler` executes at exactly its recorded depth. -/
+`true` ⇒ on every path every `PushHandler` executes at exactly its recorded depth, and every
+`CheckHandler` — the test of the first clause and of every later one — executes with exactly the
+filter operand above the depth its handler recorded. -/
 def checkHandlerDepth (arity : Nat) (code : List Sym) : Bool :=
   match infer (depthFlow arity code) with
   | none => false
@@ -600,7 +610,16 @@ inductive Stmt where
   | while_ (body : List Stmt)
   /-- `try { body } catch e: C1 { b1 } catch e: C2 { b2 } ...` -/
   | try_ (body : List Stmt) (catches : List (List Stmt))
+  /-- `|| e;` as the FIRST statement of a catch clause, `e` being the clause's variable: a closure that
+  captures it, so that the variable is a `LocalCaptured` symbol (it lives in a box: `EmptyBox` where
+  it is declared, `FillBox` where it is defined) -/
+  | capture
   deriving Repr, Inhabited
+
+/-- the clause's variable is captured (the skeleton generator puts `capture` first in the clause) -/
+def clauseCaptured : List Stmt → Bool
+  | .capture :: _ => true
+  | _ => false
 
 /-- `TryAttributes`, `LoopAttributes`, `scope_depth`, `LabelEmitter` of `Compiler`.
 `tryAttrs` holds the `scope_depth` of the open try blocks of this function, innermost first.
@@ -628,6 +647,7 @@ mutual
 def lowerStmt : Stmt → CState → CState
   | .op, c => (c.emit .Nil).emit .Drop
   | .raise_, c => (c.emit .Nil).emit .Raise
+  | .capture, c => ((c.emit (.Closure 0)).emit (.CaptureIndex (.Local 0))).emit .Drop
   | .return_, c =>
     let c := c.emit .Nil
     -- before: `if self.try_attributes.is_some() { PopHandler }`
@@ -703,7 +723,12 @@ def lowerCatches : List (List Stmt) → Nat → CState → CState
     let c := c.emit (.CheckHandler nextL)
     let c := c.emit .FinishUnwind
     let c := c.emit .PopHandler
+    -- `declare_variable` comes only HERE, on the path of the clause that accepted the error: a captured
+    -- variable gets its box (`declare_local_variable`: `EmptyBox`), `GetError` pushes the error and
+    -- `define_variable` moves it into the box (`define_local_variable`: `FillBox`)
+    let c := if clauseCaptured b then c.emit .EmptyBox else c
     let c := c.emit .GetError
+    let c := if clauseCaptured b then c.emit .FillBox else c
     let c := { c with scopeDepth := c.scopeDepth + 2 }
     let c := lowerBlock b c
     let c := { c with scopeDepth := c.scopeDepth - 2 }
@@ -811,7 +836,7 @@ def inE4 : List Stmt → Nat → Nat → Bool
   | [], _, _ => true
   | s :: rest, tries, inLoop =>
     (match s with
-      | .op | .raise_ => true
+      | .op | .raise_ | .capture => true
       | .return_ => decide (tries ≤ 1)
       | .break_ | .continue_ => decide (inLoop ≤ 1)
       | .if_ b => inE4 b tries inLoop
